@@ -711,6 +711,10 @@ def r13_5(model: Model, rep: Report) -> None:
         ("R13.5", "y0.mutate.utils.Applier.apply_fraction", "visit_fraction", {"self": AP, "expression": ("cls", f"{DSL}.Fraction")}, (), "roles",
          "a Fraction is rebuilt from its visited numerator and its visited denominator, each in its own place", {"impl_self_type": AP}),
     ]
+    if f"{DSL}._get_free_variables" in model.functions:
+        table.append(("R13.4", f"{DSL}._get_free_variables", "free_variables", {"expression": EX}, (), "free-variables",
+                      "the free variables of an expression: a sum binds its ranges, products and fractions have the free variables of all their parts, a leaf "
+                      "has the variables it mentions (Expression.conditional normalises over exactly these)"))
     run_table(model, rep, table, "yvref.c13", mk, sa, construct=construct, loc=loc)
 
 
